@@ -371,6 +371,18 @@ func (a *analysis) call(caller *ssa.Function, ci ssa.CallInstruction) {
 	if call.IsInvoke() {
 		args = append([]ssa.Value{call.Value}, args...)
 	}
+	// The error AuthPassword returns embeds the server's raw reply to the AUTH
+	// command, and a server's error reply quotes the command it rejects (`unknown
+	// command X, with args beginning with: <password>` when auth_type names a
+	// command the server does not know): the value is derived from the password.
+	if f := call.StaticCallee(); f != nil && v != nil && f.Name() == "AuthPassword" && f.Pkg != nil && inModule(f.Pkg.Pkg) {
+		for _, arg := range args {
+			if w, ok := a.is(arg); ok {
+				a.mark(v, "error of AuthPassword at "+a.pos(ci.Pos())+", which embeds the server's reply to the command that carried the password ("+w+")")
+				break
+			}
+		}
+	}
 	cs := a.callees(call)
 	handled := false
 	for _, f := range cs {
@@ -688,16 +700,27 @@ func (a *analysis) sanitizer() {
 			ret = r
 		}
 	}
-	if ret == nil || len(ret.Results) != 1 {
+	var rid *ast.Ident
+	ok := false
+	if ret != nil && len(ret.Results) == 0 && fn.Decl.Type.Results != nil && len(fn.Decl.Type.Results.List) == 1 && len(fn.Decl.Type.Results.List[0].Names) == 1 {
+		// a named result and a bare return: the result variable is what is returned
+		rid, ok = fn.Decl.Type.Results.List[0].Names[0], true
+	}
+	if !ok && (ret == nil || len(ret.Results) != 1) {
 		c.Undecidedf("R3.sanitizer", "GetSafeOptions/shape", fn.Decl.Pos(), "GetSafeOptions does not end in a single-value return")
 		return
 	}
-	rid, ok := ast.Unparen(ret.Results[0]).(*ast.Ident)
+	if !ok {
+		rid, ok = ast.Unparen(ret.Results[0]).(*ast.Ident)
+	}
 	if !ok {
 		c.Undecidedf("R3.sanitizer", "GetSafeOptions/shape", ret.Pos(), "GetSafeOptions returns an expression, not a local copy")
 		return
 	}
 	local := info.Uses[rid]
+	if local == nil {
+		local = info.Defs[rid]
+	}
 	if _, isGlobal := local.(*types.Var); !isGlobal || local.Parent() == local.Pkg().Scope() {
 		c.Failf("R3.sanitizer", "GetSafeOptions/returns-copy", ret.Pos(), "GetSafeOptions returns the live configuration object: nothing is masked")
 		return
